@@ -216,10 +216,17 @@ def run(shard, rec, tier, seed):
         if earlier is not None and grammar.check(earlier):
             earlier = None
     # ... and every fourth is staged below a directory that is itself called eolib (a checkout cloned under that name)
+    # every fifth is generated by an instance that was created for (and ran on) a revision with some types elsewhere
+    prior = None
+    if ti % 5 == 3 and earlier is None:
+        mv = collision_tree(seed, ti - 1000 + 1) if 1000 <= ti < 2000 else campaign.moved_revision(spec)
+        if mv is not None and not grammar.check(mv):
+            prior = S.render(mv)
+            rec.count("trees-generated-by-an-instance-that-read-another-revision")
     below = "eolib" if ti % 4 == 2 else None
     if below:
         rec.count("trees-staged-below-a-directory-named-eolib")
-    st, ok, err, out = stage.full(files, do_import=False, spelling=spelling, stale_output=(ti % 2 == 0), earlier_output_files=S.render(earlier) if earlier is not None else None, below=below)
+    st, ok, err, out = stage.full(files, do_import=False, spelling=spelling, stale_output=(ti % 2 == 0), earlier_output_files=S.render(earlier) if earlier is not None else None, below=below, prior_files=prior)
     if ti % 2 == 0:
         rec.count("trees-generated-over-stale-output")
     if earlier is not None:
